@@ -601,7 +601,9 @@ class Manager(metaclass=Singleton):
         if units == "nm":
             # zero is interpretted as zero energy
             try:
-                ret = numpy.zeros(val.shape, dtype=val.dtype)
+                # the reciprocal of whole numbers is not a whole number
+                ret = numpy.zeros(val.shape,
+                                  dtype=numpy.result_type(val.dtype, float))
                 ret[val!=0.0] = 1.0/val[val!=0]
                 return ret/cfact
             except:            
@@ -630,7 +632,9 @@ class Manager(metaclass=Singleton):
         if units == "nm":
             # zero is interpretted as zero energy
             try:
-                ret = numpy.zeros(val.shape, dtype=val.dtype)
+                # the reciprocal of whole numbers is not a whole number
+                ret = numpy.zeros(val.shape,
+                                  dtype=numpy.result_type(val.dtype, float))
                 ret[val!=0.0] = 1.0/val[val!=0]
                 return ret/cfact
             except:            
